@@ -23,7 +23,9 @@ def jobs(tier):
         J.append(j)
     # a node with three records: the only shape in which the undo branch of a failed shrink can misplace an element
     for nm, entry in (("remove", "harness_remove"), ("srcremove", "harness_src_remove")):
-        j = C02.op_job("allocfail_%s_v4_node3" % nm, entry, 0, 3, 4, 2400, prop="ASSERT_C18",
+        if nm == "srcremove" and tier != "thorough":
+            continue  # 17 min on the unchanged tree
+        j = C02.op_job("allocfail_%s_v4_node3" % nm, entry, 0, 3, 4, 5400, prop="ASSERT_C18",
                        extra=["ALLOC_FAIL", "TL_SHAPE=1", "TL_NRECS=3"],
                        what="k-th allocation fails: %s on a single-node IPv4 trie with exactly 3 records (all values symbolic)" % entry)
         J.append(j)
